@@ -18,6 +18,8 @@ type Config struct {
 	Preseed map[string][]int `json:"preseed,omitempty"`
 	// Clients > 1: concurrent mode (C14); ops are dealt round-robin.
 	Clients int `json:"clients,omitempty"`
+	// C13: window of operations whose lower-layer calls are fault-enumerated
+	C13 *c13Config `json:"c13,omitempty"`
 }
 
 type genState struct {
